@@ -20,7 +20,7 @@ PROPS = {
     "C05": dict(families="gating,unsat,unsat,exiton,health,shutdown,gating,unsat",
                 need=["skipped", "launchWithDeps"], model=["PCLifecycle_gating.cfg"], model_thorough=["PCLifecycle_gating.cfg", "PCLifecycle_gating3.cfg"]),
     "C08": dict(families="manual,manual,manual,manual,restart,health,manual",
-                need=["apiEnd", "launch"], model=["PCLifecycle_manualq.cfg"], model_thorough=["PCLifecycle_manualq.cfg", "PCLifecycle_manual.cfg"]),
+                need=["apiEnd", "launch"], model=["PCLifecycle_manualq.cfg"], model_thorough=["PCLifecycle_manualq.cfg", "PCLifecycle_manual.cfg", "PCLifecycle_manualconc.cfg"]),
     "C09": dict(families="gating,restart,shutdown,exiton,manual,health,unsat",
                 need=["stateEv", "observeEnd", "atRest"], model=["PCLifecycle_gating.cfg", "PCLifecycle_restart.cfg"], model_thorough=["PCLifecycle_gating.cfg", "PCLifecycle_restart.cfg", "PCLifecycle_manualq.cfg"]),
     "C10": dict(families="health,health,health,health,gating,health",
